@@ -79,6 +79,7 @@ func (e *Exec) builtin(fr *frame, st *State, name string, c *ssa.CallCommon, arg
 	case "recover":
 		return e.havocVal(st, rt, "recover")
 	case "close":
+		e.closePerm(fr, st, targ(0).T, pos)
 		return Val{Tup: []Val{}}
 	}
 	e.note("%s: builtin %s not modelled", e.w.pos(pos), name)
